@@ -430,6 +430,9 @@ def run(F, rep, tier):
     player_rule(F, rep, spec)
     end_rule(F, rep, spec)
     strings_rule(F, rep)
+    # name tag / netplay name / connect code: the bytes before the first NUL, strictly decoded (shared with C19)
+    from props import C19
+    C19.decode_rule(F, rep)
     # raw block retained (C01 clause 3)
     from props import C01
     C01.raw_blocks_rule(F, rep)
